@@ -24,6 +24,15 @@ Theorem C04_exn : forall k s e, validate_structure k s = Err e ->
 Proof. exact validate_exn. Qed.
 Print Assumptions C04_exn.
 
+(* the two ways of having no group to look at: a path that does not exist is FileNotFoundError, a store object (or a path holding an
+   array) in which no group can be opened is ValueError -- for every such target *)
+Theorem C04_missing_target :
+  validate_structure KPath None = Err FileNotFoundError /\
+  validate_structure KObj None = Err ValueError /\
+  forall k a, validate_structure k (Some (ZA a)) = Err ValueError.
+Proof. split; [reflexivity | split; [reflexivity | intros k a; destruct k; reflexivity]]. Qed.
+Print Assumptions C04_missing_target.
+
 (* one property group: accepted iff declared in the metadata and conformant with its entry *)
 Theorem C04_prop : forall len pmd name node,
   validate_prop len pmd (name, node) = Ok tt <-> exists pm, alookup name pmd = Some pm /\ prop_conformant len pm node.
